@@ -298,6 +298,10 @@ func smtFileQ(o *Obligation, slice bool, dropQuant bool) string {
 			}
 		}
 	}
+	if o.anl {
+		st.funcs["umul_Real"] = "(Real Real) Real"
+		st.funcs["udiv_Real"] = "(Real Real) Real"
+	}
 	for _, n := range sortedKeys(st.funcs) {
 		if _, isP := prelude[n]; isP {
 			continue
@@ -320,13 +324,23 @@ func smtFileQ(o *Obligation, slice bool, dropQuant bool) string {
 		}
 		return pn[i] < pn[j]
 	})
+	needUmul, needUdiv := false, false
 	for _, n := range pn {
 		if a, ok := anlAx[n]; ok {
 			sb.WriteString(prelude[n].Decl + "\n(assert " + a.String() + ")\n")
 			continue
 		}
+		if o.anl {
+			if t, ch := abstractSMTText(prelude[n].SMT); ch {
+				needUmul = needUmul || strings.Contains(t, "(umul_Real ")
+				needUdiv = needUdiv || strings.Contains(t, "(udiv_Real ")
+				sb.WriteString(strings.TrimSpace(t) + "\n")
+				continue
+			}
+		}
 		sb.WriteString(strings.TrimSpace(prelude[n].SMT) + "\n")
 	}
+	_, _ = needUmul, needUdiv
 	if o.anl {
 		for _, tg := range []string{"Real", "Int"} {
 			if _, ok := st.funcs["umul_"+tg]; ok {
